@@ -104,11 +104,51 @@ func (t *stask) Run(ctx context.Context) error {
 	case 3:
 		select {
 		case <-t.release:
-		case <-time.After(3 * time.Second):
+		case <-time.After(30 * time.Second):
 		}
 	}
 	return nil
 }
+
+// Deadlines are counted in ticks of a 5 ms ticker that were actually DELIVERED to this process: when the whole machine or
+// the process is stalled for seconds (a busy CI box, a paused VM) a time.Ticker drops the missed ticks, so a stall does not
+// use up the budget - only time during which the harness itself was running does.  A hang is therefore "N ticks of
+// observed progress opportunity without the awaited event", not "N seconds of wall clock".
+func waitChan(ch <-chan struct{}, ticks int) bool {
+	tk := time.NewTicker(5 * time.Millisecond)
+	defer tk.Stop()
+	for n := 0; n < ticks; {
+		select {
+		case <-ch:
+			return true
+		case <-tk.C:
+			n++
+		}
+	}
+	select {
+	case <-ch:
+		return true
+	default:
+		return false
+	}
+}
+
+func waitCond(cond func() bool, ticks int) bool {
+	tk := time.NewTicker(5 * time.Millisecond)
+	defer tk.Stop()
+	for n := 0; n < ticks; n++ {
+		for k := 0; k < 20; k++ {
+			if cond() {
+				return true
+			}
+			time.Sleep(100 * time.Microsecond)
+		}
+		<-tk.C
+	}
+	return cond()
+}
+
+const hangTicks = 1600 // 8 s of delivered 5 ms ticks
 
 func dumpGoroutines(what string) {
 	buf := make([]byte, 1<<20)
@@ -253,22 +293,17 @@ func oneRound(rng *rand.Rand, focus string) (string, int) {
 	if !midShutdown {
 		wg.Wait()
 		// C10 liveness on a RUNNING pool: every accepted task must get executed without any further call
-		deadline := time.Now().Add(3 * time.Second)
-		for {
-			all := true
+		allDone := func() bool {
 			for i, t := range tasks {
 				if results[i] == nil && !t.done.Load() {
-					all = false
+					return false
 				}
 			}
-			if all {
-				break
-			}
-			if time.Now().After(deadline) {
-				dumpGoroutines("stranded")
-				return fmt.Sprintf("stranded: accepted tasks are not executed by the running pool: %s [%s]", p.VerifSnapshot(), cfg), ntask
-			}
-			time.Sleep(100 * time.Microsecond)
+			return true
+		}
+		if !waitCond(allDone, hangTicks) {
+			dumpGoroutines("stranded")
+			return fmt.Sprintf("stranded: accepted tasks are not executed by the running pool: %s [%s]", p.VerifSnapshot(), cfg), ntask
 		}
 	} else {
 		time.Sleep(shutDelay)
@@ -328,8 +363,7 @@ func oneRound(rng *rand.Rand, focus string) (string, int) {
 	wg.Wait()
 	if doneCh != nil {
 		// graceful: the channel must close within a generous bound after the last accepted task finished ...
-		select {
-		case <-doneCh:
+		if waitChan(doneCh, hangTicks) {
 			r.closedSeen.Store(true)
 			// ... and not before: completion flags at the instant closure is observed
 			for i, t := range tasks {
@@ -337,7 +371,7 @@ func oneRound(rng *rand.Rand, focus string) (string, int) {
 					return fmt.Sprintf("done-early: Shutdown's channel is closed while accepted task %d has not finished: %s [%s]", i, p.VerifSnapshot(), cfg), ntask
 				}
 			}
-		case <-time.After(4 * time.Second):
+		} else {
 			alldone := true
 			for i, t := range tasks {
 				if results[i] == nil && !t.done.Load() {
@@ -345,17 +379,13 @@ func oneRound(rng *rand.Rand, focus string) (string, int) {
 				}
 			}
 			dumpGoroutines("shutdown-hang")
-			return fmt.Sprintf("shutdown-hang: Shutdown's channel not closed 4s after the call (all accepted tasks finished: %v): %s [%s]", alldone, p.VerifSnapshot(), cfg), ntask
+			return fmt.Sprintf("shutdown-hang: Shutdown's channel not closed after %d delivered 5ms ticks (all accepted tasks finished: %v): %s [%s]", hangTicks, alldone, p.VerifSnapshot(), cfg), ntask
 		}
 	} else {
 		// ShutdownNow: wait until the workers are gone and running tasks have finished
-		deadline := time.Now().Add(3 * time.Second)
-		for r.running.Load() != 0 || p.VerifNumGo() != 0 {
-			if time.Now().After(deadline) {
-				dumpGoroutines("shutdownnow-hang")
-				return fmt.Sprintf("shutdownnow-hang: workers still alive: %s [%s]", p.VerifSnapshot(), cfg), ntask
-			}
-			time.Sleep(100 * time.Microsecond)
+		if !waitCond(func() bool { return r.running.Load() == 0 && p.VerifNumGo() == 0 }, hangTicks) {
+			dumpGoroutines("shutdownnow-hang")
+			return fmt.Sprintf("shutdownnow-hang: workers still alive: %s [%s]", p.VerifSnapshot(), cfg), ntask
 		}
 		time.Sleep(200 * time.Microsecond)
 		// the returned wrappers are run in a marked mode
@@ -408,7 +438,6 @@ func directedScaleDown(seed int64, budget time.Duration) (string, int) {
 		coreGo    = 2
 		maxGo     = 6
 		queueSize = 16
-		hangAfter = 15 * time.Second
 	)
 	deadline := time.Now().Add(budget)
 	var failed atomic.Value
@@ -464,11 +493,7 @@ func directedScaleDown(seed int64, budget time.Duration) (string, int) {
 				}
 				ok := true
 				for i := 0; i < maxGo && ok; i++ {
-					select {
-					case <-started:
-					case <-time.After(hangAfter):
-						ok = false
-					}
+					ok = waitChan(started, 2*hangTicks)
 				}
 				if !ok {
 					close(gate)
@@ -496,15 +521,14 @@ func directedScaleDown(seed int64, budget time.Duration) (string, int) {
 				}
 				close(gate)
 				cfg := fmt.Sprintf("[init=%d core=%d max=%d queue=%d idle=%s backlog=%d] (trial %d, goroutine %d, seed %d)", initGo, coreGo, maxGo, queueSize, idle, n, k, g, seed)
-				select {
-				case <-done:
+				if waitChan(done, 2*hangTicks) {
 					if f, a := finished.Load(), accepted.Load(); f != a {
 						fail(fmt.Sprintf("done-early: directed scale-down scenario: Shutdown's channel is closed while only %d of %d accepted tasks have finished: %s %s", f, a, p.VerifSnapshot(), cfg))
 						return
 					}
-				case <-time.After(hangAfter):
+				} else {
 					dumpGoroutines("directed-shutdown-hang")
-					fail(fmt.Sprintf("shutdown-hang: directed scale-down scenario: Shutdown's channel not closed %s after the call: %s %s", hangAfter, p.VerifSnapshot(), cfg))
+					fail(fmt.Sprintf("shutdown-hang: directed scale-down scenario: Shutdown's channel not closed after %d delivered 5ms ticks: %s %s", 2*hangTicks, p.VerifSnapshot(), cfg))
 					return
 				}
 				time.Sleep(50 * time.Microsecond)
